@@ -13,7 +13,7 @@ from common import *
 from contracts import StructSpec
 import life_core as L
 from life_core import Part, Member
-from c14 import ext_vtr
+from life_core import ext_vtr
 
 RULES = {False: 'R-LIFE-SVEC', True: 'R-LIFE-SVEC-TWIN'}
 # members that must exist (anchors); the twin has no erase / range / initializer-list constructor
@@ -117,43 +117,49 @@ def run_unit(rep, repo, tier, twin, n):
             raise AnalysisBroken('%s: no lifetime contract for member %s%s' % (label, f.qualname, sig_suffix(f)))
         members.append((f, mb))
     lay = layout_for(mod, fns[0], n)
+    # one identity per member whatever the capacity: the capacity is part of the partition
     st = L.run_members(rep, RULES[twin], repo, mod, members, lay, ext_vtr, peel=2 * n + 3, label=label,
-                       cls='igris::static_vector<')
+                       cls='igris::static_vector<', rename=lambda s: s.replace('<VTr, %dul>' % n, '<VTr, N>'),
+                       part_prefix='N=%d,' % n)
     return st, len(members)
 
 
 def run_life(rep, repo, tier):
+    rep.explanation = (rep.explanation or '') + EXPLANATION
     rep.assumptions += ['lifetime rules: element special members do not throw (only the normal edge of an invoke is '
                         'followed)', 'lifetime rules: erase(first,last) is called with begin() <= first <= last <= end(); '
                         'operator[] with pos < size(); front/back on a non-empty container']
-    expected = {False: 0, True: 0}
+    expected = {False: 0, True: 0}      # (member, capacity) pairs
     partitions = 0
-    units = [(False, 4), (True, 4)]
-    if tier == 'thorough':
-        units += [(False, 1), (True, 1), (False, 2), (True, 2), (False, 6), (True, 6)]
+    caps = [4, 1, 2] if tier != 'thorough' else [4, 1, 2, 3, 6, 8]
+    units = [(twin, n) for n in caps for twin in (False, True)]
     for (twin, n) in units:
         st, nm = run_unit(rep, repo, tier, twin, n)
         partitions += st['partitions']
         expected[twin] += nm
-    # floors: instances are distinct by (rule, member incl. its capacity, clause).  A partition that cannot be analysed
-    # removes its member's ':analysed' instance, so the floor of that rule is missed (exit 2, never a pass)
+    # floors: instances are distinct by (rule, member, clause) and merged over capacities and partitions; the
+    # ':analysed' instances are per (member, capacity).  A partition that cannot be analysed removes that instance, so
+    # the floor of the rule is missed (exit 2, never a pass)
     for twin in (False, True):
         rep.floor(RULES[twin] + ':analysed', expected[twin])
         rep.floor(RULES[twin] + ':event', 20 if twin else 28)
         rep.floor(RULES[twin] + ':return', 50 if twin else 56)
-    if partitions < (450 if tier != 'thorough' else 1500):
+        rep.floor(RULES[twin] + ':result', 6)
+    if partitions < (900 if tier != 'thorough' else 3800):
         raise AnalysisBroken('lifetime rules: only %d (member, partition) pairs analysed' % partitions)
 
 
 EXPLANATION = (
-    ' Element lifetimes (rules R-LIFE-SVEC, R-LIFE-SVEC-TWIN): slot typestate RAW/LIVE over the inline storage of '
-    'static_vector<VTr,4> and of its std_portable.h twin, decided by trace partitioning: each member is interpreted once '
-    'per entry value of m_size in 0..N (and of other.m_size, and self-assignment, for the assignments), per position '
-    '0..m_size and per count 0..2N of its arguments, so that every loop runs on concrete bounds and every slot index is '
-    'a constant while element contents stay abstract. Decided per (member, partition): every constructor call hits a '
-    'RAW slot, every destructor call and every assignment a LIVE slot, every element read as the source of a copy/move '
-    'is LIVE, no raw memset/memcpy/store of the container touches a LIVE slot, and at every return the slots are again '
-    '[0,m_size) LIVE and [m_size,N) RAW for the stored m_size (constructors start from all RAW, the destructor ends '
-    'all RAW): by induction over the operation history every constructed element is destroyed exactly once. The '
-    'thorough tier repeats this for N = 1, 2 and 6. Not decided: exception paths (a throwing element constructor), '
-    'the int instantiation (no lifetime events), other capacities (the code has no N-dependent case).')
+    ' Element lifetimes (rules R-LIFE-SVEC for static_vector.h, R-LIFE-SVEC-TWIN for the std_portable.h twin): slot '
+    'typestate RAW/LIVE over the inline storage of static_vector<VTr,N>, N = 4, 1 and 2 (thorough tier also 3, 6, 8), '
+    'decided by trace partitioning: every member is interpreted once per entry value of m_size in 0..N (and of '
+    'other.m_size, and for self-assignment, in the two-container members), per position 0..m_size of its iterator/index '
+    'arguments, per count 0..2N, and for a value argument owned by the caller as well as one that is an element of the '
+    'container, so that every loop runs on concrete bounds and every slot index is a constant while element contents '
+    'stay abstract. Decided per (member, partition): every constructor call hits a RAW slot, every destructor call and '
+    'every assignment a LIVE slot, every element read as the source of a copy/move is LIVE, no raw memset/memcpy/store '
+    'of the container touches a LIVE slot, references returned by operator[]/front/back designate LIVE slots, and at '
+    'every return the slots are again [0,m_size) LIVE and [m_size,N) RAW for the stored m_size (constructors start from '
+    'all RAW, the destructor ends all RAW): by induction over the operation history every constructed element is '
+    'destroyed exactly once. Not decided: exception paths (a throwing element constructor), the int instantiation (no '
+    'lifetime events), capacities other than those listed (the code has no N-dependent case).')
